@@ -5,6 +5,8 @@ func newVisited() visitedComponent {
 		header:   make(map[*Header]struct{}),
 		schema:   make(map[*Schema]struct{}),
 		callback: make(map[*Callback]struct{}),
+
+		operationInProgress: make(map[*Operation]struct{}),
 	}
 }
 
@@ -12,6 +14,9 @@ type visitedComponent struct {
 	header   map[*Header]struct{}
 	schema   map[*Schema]struct{}
 	callback map[*Callback]struct{}
+
+	// operations whose callbacks are being walked
+	operationInProgress map[*Operation]struct{}
 }
 
 // resetVisited clears visitedComponent map
